@@ -60,7 +60,9 @@ def source(case):
 
 
 def run_session(src, ks, sc, ticklog=False):
-    reqs = [core.run_req(src, 1)] + [core.run_req(":resume", 2 + i) for i in range(len(ks) + 1)]
+    # the baseline gets no `:resume` at all: a resume after a final error would re-execute the failed step and its ticks
+    # would be counted as ticks of the program
+    reqs = [core.run_req(src, 1)] + [core.run_req(":resume", 2 + i) for i in range(len(ks) + (1 if ks else 0))]
     env = {}
     log = None
     if ks:
